@@ -18,6 +18,11 @@ WIDTH = {"u8": 8, "u16": 16, "u32": 32, "u64": 64, "i8": 8, "i16": 16, "i32": 32
 SOURCES = ["u8", "u16", "u32", "u64", "i8", "i16", "i32", "i64", "usize"]
 
 
+RUST_KEYWORDS = {"self", "type", "move", "loop", "match", "ref", "in", "as", "box", "dyn", "enum", "fn", "for", "if", "impl", "let", "mod",
+                 "mut", "pub", "static", "struct", "super", "trait", "true", "false", "use", "where", "while", "break", "const", "continue",
+                 "crate", "else", "extern", "return", "unsafe", "async", "await", "abstract", "final", "override", "macro", "try", "yield"}
+
+
 def norm(s):
     return s.replace("_", "").lower()
 
@@ -108,6 +113,8 @@ def gen_enum_harness(item, d, hname, arm_budget=200):
     idents = []
     for m in d["members"]:
         c = by_norm.get(norm(m["name"]))
+        if not c and norm(m["name"]) in RUST_KEYWORDS:
+            c = by_norm.get(norm(m["name"]) + "x")     # Rust keywords are escaped by an `X` suffix (SELF -> SelfX)
         if not c or len(c) != 1:
             raise vlib.AnchorLost("enumerator %s::%s has no unique Rust variant" % (d["name"], m["name"]))
         idents.append(c[0])
